@@ -24,6 +24,7 @@ import (
 	"unsafe"
 
 	"github.com/aws/aws-sdk-go/aws"
+	"github.com/aws/aws-sdk-go/aws/awserr"
 	"github.com/aws/aws-sdk-go/aws/request"
 	"github.com/aws/aws-sdk-go/service/s3"
 	"github.com/jrhy/mast"
@@ -55,6 +56,9 @@ type fakeS3 struct {
 	calls   []string
 	failPut bool
 	failGet bool
+	// the next `transient` PutObject calls consume the body and then fail with this (possibly retryable) AWS error code
+	transient     int
+	transientCode string
 }
 
 func (f *fakeS3) DeleteObjectWithContext(ctx aws.Context, in *s3.DeleteObjectInput, o ...request.Option) (*s3.DeleteObjectOutput, error) {
@@ -104,6 +108,10 @@ func (f *fakeS3) PutObjectWithContext(ctx aws.Context, in *s3.PutObjectInput, o 
 	f.calls = append(f.calls, "PUT "+*in.Bucket+"/"+*in.Key)
 	if f.failPut {
 		return nil, errors.New("injected s3 put error")
+	}
+	if f.transient > 0 {
+		f.transient--
+		return nil, awserr.New(f.transientCode, "injected transient s3 put error (body of "+strconv.Itoa(len(b))+" bytes was read)", nil)
 	}
 	if err != nil {
 		return nil, err
@@ -329,6 +337,31 @@ func backendMain(args []string) int {
 			rec.Problems = append(rec.Problems, "PutObject error not returned by Store")
 		}
 		fs.failPut = false
+		// a PutObject that fails once after the body was sent (time-out, connection reset, throttling, denial): Store
+		// must either report the error, or - if it tries again by itself - leave exactly the bytes under the name
+		for ci, code := range []string{"RequestTimeout", "RequestError", "ResponseTimeout", "Throttling", "SlowDown", "AccessDenied"} {
+			nm := "TRANSIENT" + strconv.Itoa(ci)
+			payload := bytes.Repeat([]byte{byte('a' + ci)}, 1+ci*700)
+			fs.mu.Lock()
+			fs.transient, fs.transientCode = 1, code
+			fs.mu.Unlock()
+			err := pp.Store(ctx, nm, payload)
+			fs.mu.Lock()
+			got, ok := fs.objs[bucket+"/"+pfx+nm]
+			fs.transient = 0
+			fs.mu.Unlock()
+			if err == nil && (!ok || !bytes.Equal(got, payload)) {
+				rec.Problems = append(rec.Problems, "Store reported success after a PutObject that failed with "+code+" but the object holds "+strconv.Itoa(len(got))+" of "+strconv.Itoa(len(payload))+" bytes")
+			}
+			if ok && !bytes.Equal(got, payload) {
+				rec.Problems = append(rec.Problems, "after a PutObject failing with "+code+" the name is bound to "+strconv.Itoa(len(got))+" bytes that are not the node ("+strconv.Itoa(len(payload))+" bytes)")
+			}
+			if err == nil {
+				if b, lerr := pp.Load(ctx, nm); lerr != nil || !bytes.Equal(b, payload) {
+					rec.Problems = append(rec.Problems, "Load after a successful Store (PutObject failed once with "+code+") does not return the bytes")
+				}
+			}
+		}
 		pp.Store(ctx, "OKNAME", []byte("zz"))
 		fs.failGet = true
 		if _, err := pp.Load(ctx, "OKNAME"); err == nil {
